@@ -179,9 +179,9 @@ def audit_axioms(module, names):
                        stderr=subprocess.STDOUT, text=True, timeout=1800)
     out = p.stdout
     res = {}
-    for m in re.finditer(r"'([^']+)' depends on axioms: \[([^\]]*)\]", out, re.S):
+    for m in re.finditer(r"^'(.+?)' depends on axioms: \[([^\]]*)\]", out, re.S | re.M):
         res[m.group(1).split(".")[-1]] = [a.strip() for a in m.group(2).replace("\n", " ").split(",") if a.strip()]
-    for m in re.finditer(r"'([^']+)' does not depend on any axioms", out):
+    for m in re.finditer(r"^'(.+?)' does not depend on any axioms", out, re.M):
         res[m.group(1).split(".")[-1]] = []
     missing = [n for n in names if n.split(".")[-1] not in res]
     if p.returncode != 0 or missing:
